@@ -81,7 +81,7 @@ func execDriven(run *simkit.Run) {
 		w.nw.Intercept = func(string, string, []byte) bool { return true }
 		w.closeAll()
 	}()
-	if run.Failed() {
+	if run.Stop() {
 		return
 	}
 	switch c.Int("prejoin") {
@@ -119,7 +119,7 @@ func execDriven(run *simkit.Run) {
 	alive := func(n *node) bool { return n.alive }
 	member := func(n *node) bool { return n.alive && !n.left }
 	for i, op := range c.Script {
-		if run.Failed() {
+		if run.Stop() {
 			break
 		}
 		run.Step = i
@@ -272,7 +272,7 @@ func execDriven(run *simkit.Run) {
 		w.checkAll()
 	}
 	// C20.rest / C04 after settling: reliable fair sweeps, then everything must agree
-	if !run.Failed() && w.maxPkt >= 500 {
+	if !run.Stop() && w.maxPkt >= 500 {
 		w.dropPending()
 		ms := w.members()
 		for i := 1; i < len(ms); i++ {
@@ -377,7 +377,7 @@ func execConcurrent(run *simkit.Run) {
 	w := newWorld(run, c.Int("nodes"), 1400, interval, false, simnet.Config{PktDelay: 200 * time.Microsecond, PktJitter: time.Millisecond,
 		Quantum: time.Duration(c.Int("net_quantum_us")) * time.Microsecond})
 	defer w.closeAll()
-	if run.Failed() {
+	if run.Stop() {
 		return
 	}
 	for i := 1; i < len(w.nodes); i++ {
